@@ -61,12 +61,13 @@ AfterLoop == IF pkind = "push" THEN "tail" ELSE "idle"
 (* subscriber threads *)
 TJoinRecent(s, m) == call[s] = "none" /\ SubscribeRecent(s, m) /\ UNCHANGED cvars
 TJoinAt(s, p, m) == call[s] = "none" /\ SubscribeAt(s, p, m) /\ UNCHANGED cvars
-(* a parked original is copied only while it is still registered: between the publisher's critical section
-   that collected its awaiter and its get_value the registration already points to the value the original
-   is about to receive and nothing tells the copy so (the copy would skip that value: assumption) *)
+(* CopyWoken: the original may also be copied between the publisher's critical section that collected its
+   awaiter and its own get_value (the registration then already points to the value the original is about to
+   receive: the `woken` bit of the repaired code tells the copy so) *)
 TJoinCopy(c, o) ==
     /\ call[c] = "none"
-    /\ pc[o] = "parked" => Slot(o).awt = o
+    /\ pc[o] = "parked" => (Slot(o).awt = o \/ CopyWoken)
+    /\ pdel # o
     /\ SubscribeCopy(c, o)
     /\ UNCHANGED cvars
 
@@ -107,7 +108,7 @@ TPollReady(s) ==
                          /\ res' = [res EXCEPT ![s] = "none"]
                     ELSE /\ res' = [res EXCEPT ![s] = "notready"]
                          /\ UNCHANGED <<pc, call>>
-    /\ UNCHANGED <<pubvars, nextFree, wakeq, hnd, mode, recv, wakes, start, oow, wasKicked, left, njoin, nkick,
+    /\ UNCHANGED <<pubvars, nextFree, wakeq, hnd, mode, recv, wakes, start, oow, wasKicked, left, plan, njoin, nkick,
                    ppc, pkind, pco, pdel>>
 
 TPollFetch(s) ==
@@ -119,7 +120,7 @@ TPollFetch(s) ==
                        /\ UNCHANGED <<recv, wakes>>
                   ELSE Deliver(s, g)
     /\ call' = [call EXCEPT ![s] = "none"]
-    /\ UNCHANGED <<pubvars, nextFree, wakeq, hnd, mode, start, oow, wasKicked, left, njoin, nkick, ppc, pkind, pco, pdel>>
+    /\ UNCHANGED <<pubvars, nextFree, wakeq, hnd, mode, start, oow, wasKicked, left, plan, njoin, nkick, ppc, pkind, pco, pdel>>
 
 -----------------------------------------------------------------------------
 (* the publisher thread *)
@@ -164,7 +165,7 @@ PWake ==
                ELSE wakeq' = <<>> /\ pco' = 0 /\ ppc' = AfterLoop
     /\ pdel' = 0
     /\ call' = [s \in Subs |-> IF s = pdel THEN "none" ELSE call[s]]     \* its coroutine has handed the result over
-    /\ UNCHANGED <<pubvars, regs, nextFree, hnd, mode, recv, res, start, oow, wasKicked, left, njoin, nkick, pkind>>
+    /\ UNCHANGED <<pubvars, regs, nextFree, hnd, mode, recv, res, start, oow, wasKicked, left, plan, njoin, nkick, pkind>>
 
 (* get_value_lk of the resumed coroutine, run by the publisher thread *)
 PFetch ==
